@@ -414,10 +414,14 @@ fn mutate(kind: AK, valid: &str, m: usize, salt: u64) -> Option<(String, &'stati
     let seps = sep.to_string();
     let groups: Vec<&str> = valid.split(sep).collect();
     let pick = (mix64(salt) as usize) % groups.len();
+    // out of range by a little, by a lot, and by amounts that wrap around 8/16/32/64-bit accumulators onto a valid value
+    const BIG_MAC: [&str; 12] = ["100", "1ff", "fff", "256", "101", "10000", "10001", "100000000", "100000001", "10000000000000000", "10000000000000001", "1000000000000000000000000000000a"];
+    const BIG_IP4: [&str; 14] = ["256", "300", "999", "1000", "257", "65536", "65537", "4294967295", "4294967296", "4294967297", "99999999999", "18446744073709551616", "18446744073709551617", "100000000000000000000000000001"];
+    const BIG_IP6: [&str; 12] = ["10000", "1ffff", "fffff", "100000", "10001", "100000000", "100000001", "ffffffffff", "10000000000000000", "10000000000000001", "1000000000000000000000000000000a", "123456789"];
     let big = match kind {
-        AK::Mac => ["100", "1ff", "fff", "256"][(salt % 4) as usize],
-        AK::Ip4 => ["256", "300", "999", "1000"][(salt % 4) as usize],
-        AK::Ip6 => ["10000", "1ffff", "fffff", "100000"][(salt % 4) as usize],
+        AK::Mac => BIG_MAC[(salt % 12) as usize],
+        AK::Ip4 => BIG_IP4[(salt % 14) as usize],
+        AK::Ip6 => BIG_IP6[(salt % 12) as usize],
     };
     let some = match kind {
         AK::Mac => "a1",
